@@ -404,12 +404,18 @@ func traceString(s *sched.Scheduler, max int) string {
 }
 
 func checkC20(c *ev.Ctx) {
-	c.Rule("engine E2 on the real shimagent.Server (Wait/Broadcast) and the real yubiagent server: level 1 = W waiter threads + S broadcaster threads over codes {5,11,39,40,255}: every assignment for (W,S) in {(1,1),(2,1),(1,2)} with all interleavings (unbounded), (2,2),(3,1),(3,2) over codes {5,11} with preemption bound 2 (thorough 3); level 2 = clients on scheduler-visible pipes, one ServeAgent thread per connection, waiters send wait requests and senders send list/add-hardware-certificate/wait/remove-all requests (two scenarios with a further connection whose signature request hangs in the underlying agent for ever, holding the shim's lock), preemption bound 2 and at most 3 departures from the canonical lowest-id-first order at any branch (thorough: 3 and 4); level 2 also as a complete sweep awaited code 0..39 x other request code 0..40,255 in canonical order, and with a thread that uses the server's shim object directly (6 call sequences of lock / unlock / close / remove-all incl. refused ones) while clients wait; level 2 and level 1 also with waiter-count profiles (1..8 clients, thorough ..33, on one code plus one on the adjacent code, both registration and request orders, canonical schedule); level 3 = all 256 codes sequentially. A small black-box real-time pass on real goroutines always runs as a declared side pass (3 scenarios); when the scheduler cannot drive the implementation (a thread blocks on something that is not a hooked operation: sched.Stall) the exploration is abandoned, the result is marked not exhaustive and the full real-time pass (208 scenarios) decides what black-box observation can decide. Oracle on the recorded trace: released => a broadcast of that code after registration; a matching request after registration => released; codes >= 40 never register; after a clean-up broadcast every thread finishes. states = executions (complete interleavings), transitions = scheduling events. non-trivial = execution in which a waiter registered; distinct by (scenario, schedule)")
+	c.Rule("engine E2 on the real shimagent.Server (Wait/Broadcast) and the real yubiagent server: level 1 = W waiter threads + S broadcaster threads over codes {5,11,39,40,255}: every assignment for (W,S) in {(1,1),(2,1),(1,2)} with all interleavings (unbounded), (2,2),(3,1),(3,2) over codes {5,11} with preemption bound 2 (thorough 3); level 2 = clients on scheduler-visible pipes, one ServeAgent thread per connection, waiters send wait requests and senders send list/add-hardware-certificate/wait/remove-all requests (two scenarios with a further connection whose signature request hangs in the underlying agent for ever, holding the shim's lock), preemption bound 2 and at most 3 departures from the canonical lowest-id-first order at any branch (thorough: 3 and 4); level 2 also as a complete sweep awaited code 0..39 x other request code 0..40,255 in canonical order, and with a thread that uses the server's shim object directly (6 call sequences of lock / unlock / close / remove-all incl. refused ones) while clients wait; level 2 and level 1 also with waiter-count profiles (1..8 clients, thorough ..33, on one code plus one on the adjacent code, both registration and request orders, canonical schedule); level 3 = all 256 codes sequentially. A small black-box real-time pass on real goroutines always runs as a declared side pass (4 scenarios on raw connections and one through the project's client library with one client object shared by two goroutines); when the scheduler cannot drive the implementation (a thread blocks on something that is not a hooked operation: sched.Stall) the exploration is abandoned, the result is marked not exhaustive and the full real-time pass (208 scenarios) decides what black-box observation can decide. Oracle on the recorded trace: released => a broadcast of that code after registration; a matching request after registration => released; codes >= 40 never register; after a clean-up broadcast every thread finishes. states = executions (complete interleavings), transitions = scheduling events. non-trivial = execution in which a waiter registered; distinct by (scenario, schedule)")
 	c.Assume("condition variable i of the shim belongs to message code i (ids are assigned in creation order; checked by the registers-on-wrong-code oracle)", "vsync.Cond has the semantics of sync.Cond without spurious wake-ups (litmus-tested)")
 	if c.ReplayCase != nil {
 		var rt c20RTCase
 		if json.Unmarshal(c.ReplayCase, &rt); rt.RealTime {
 			vsync.Sequential.Store(false)
+			if rt.SharedClient {
+				if key, desc := c20RTSharedClient(); key != "" {
+					c.Violation(key, desc, rt)
+				}
+				return
+			}
 			if key, desc := c20RTRun(rt); key != "" {
 				c.Violation(key, desc, rt)
 			}
